@@ -82,7 +82,13 @@ impl ArrivalCurvePrefix {
                 .map(|(i, _)| i)
                 .next();
             let i = step.unwrap_or(self.steps.len());
-            self.steps[i - 1].1
+            // no step at or before delta (in particular: no steps at
+            // all, e.g., a prefix recorded from `Never`) => no arrivals
+            if i > 0 {
+                self.steps[i - 1].1
+            } else {
+                0
+            }
         }
     }
 }
